@@ -188,6 +188,27 @@ def gen_planetary_config(rng, integrators=None, nmin=2, nmax=7, allow_unsafe=Tru
     return cfg
 
 
+def gen_compact_config(rng, integrators=("trace", "trace", "mercurius")):
+    """tightly packed planets with physical radii under a hybrid integrator with direct collision search and mergers: close encounters
+    every few steps, a merger within the first few hundred steps, step rejections (TRACE) afterwards"""
+    integ = rng.choice(list(integrators))
+    n = rng.randint(5, 8)
+    ps = [dict(m=1.0, x=0.0, y=0.0, z=0.0, vx=0.0, vy=0.0, vz=0.0, r=0.0)]
+    for i in range(1, n):
+        a = 1.0 + 0.12 * (i - 1) + rng.uniform(-0.02, 0.02)
+        x, y, z, vx, vy, vz = kepler_to_cart(1.0, 1.0, a, rng.uniform(0, 0.1), rng.uniform(0, 0.02), rng.uniform(0, 6.28), rng.uniform(0, 6.28), rng.uniform(0, 6.28))
+        ps.append(dict(m=rng.choice([1e-4, 3e-4, 1e-3]), x=x, y=y, z=z, vx=vx, vy=vy, vz=vz, r=rng.choice([2e-3, 5e-3, 1e-2])))
+    mt = sum(p["m"] for p in ps)
+    for k in ("x", "y", "z", "vx", "vy", "vz"):
+        c = sum(p["m"] * p[k] for p in ps) / mt
+        for p in ps:
+            p[k] -= c
+    for i, p in enumerate(ps):
+        p["hash"] = 1000 + i
+    return dict(integrator=integ, G=1.0, particles=ps, gravity="basic", collision="direct", collision_resolve="merge", boundary="none", opts={}, dt=0.05,
+                rand_seed=rng.randint(1, 2**31 - 1), compact=True)
+
+
 # ----------------------------------------------------------------------------------------------
 def build(rebound, rb, cfg):
     """Construct the simulation described by cfg on the given rebound module."""
@@ -268,6 +289,10 @@ def attach_callbacks(rebound, rb, sim, cfg):
         sim.force_is_velocity_dependent = 1
     if cfg.get("collision", "none") != "none" and cfg.get("collision_resolve"):
         sim.collision_resolve = cfg["collision_resolve"]
+    if cfg.get("ptm") in ("pre", "post"):
+        import ctypes
+        fn = ctypes.cast(rb.L.verif_ptm_damp, ctypes.c_void_p).value
+        rb.setf_ptr(sim, "%s_timestep_modifications" % cfg["ptm"], fn)
 
 
 def gen_box_config(rng, nmax=60, allow_shear=True):
